@@ -392,7 +392,12 @@ def run_file(spec, res, d, h, f, ioapi):
                 # several functions in one call: the stored type truncates
                 # after EACH of them (same known mechanism), in either order
                 stepwise = False
-                if len(mine) > 1 and got.shape == data.shape:
+                # (numpy's apply_along_axis types its output by the first
+                # 1-D result, so this happens where a step is a CALLABLE;
+                # named reducers keep their floating result until the store)
+                if len(mine) > 1 and got.shape == data.shape and any(
+                        fnmap[d_] in ops.CALLABLES or fnmap[d_] in _EXTRA
+                        for ax_, d_ in mine):
                     for order in (sorted(mine, reverse=True), sorted(mine)):
                         try:
                             dd_, mm_ = vs.data, vs.mask
